@@ -811,6 +811,12 @@ func evalBinaryArrayExpr(op parser.Operator, left *arrayVal, right value) (value
 		if repetitions < 0 {
 			return nil, fmt.Errorf("%w: negative count: %s", ErrBadRepetition, right)
 		}
+		if len(*left.Elements) == 0 {
+			return &arrayVal{Elements: &[]value{}}, nil
+		}
+		if repetitions > math.MaxInt32/len(*left.Elements) {
+			return nil, fmt.Errorf("%w: result too large: %s", ErrBadRepetition, right)
+		}
 		newElements := make([]value, 0, len(*left.Elements)*repetitions)
 		for range repetitions {
 			newElements = append(newElements, *(deepCopy(left).(*arrayVal).Elements)...)
